@@ -119,9 +119,14 @@ def render_pepxml(f, prefix, st):
                        % (sp["scan"], sp["scan"], sp["charge"], sp["scan"], sp["scan"], milli(sp["mass"], st["fmt"]),
                           sp["charge"], idx, milli(sp["rt"], st["fmt"])))
             if sp["hits"] or st["extras"]:
-                out.append("<search_result>")
+                cut = (1 + (idx + len(sp["hits"])) % len(sp["hits"])) if (st.get("split") and len(sp["hits"]) >= 1) else None
+                out.append("<search_result>" if cut is None else '<search_result search_id="1">')
                 for rank, h in enumerate(sp["hits"], 1):
                     out.extend(render_hit(h, rank, sp, prefix, st))
+                    if cut is not None and rank == cut:
+                        # (cut = number of hits: the second element is empty; an empty FIRST element is rendered for odd indices)
+                        out.append("</search_result>")
+                        out.append('<search_result search_id="2">')
                 out.append("</search_result>")
             out.append("</spectrum_query>")
         out.append("</msms_run_summary>")
@@ -223,8 +228,9 @@ def tlc_docs(cfg):
 
 
 def style(idx, variant=None):
+    # split: the hits of a spectrum stand in two <search_result> elements (the schema allows one per search_id)
     return {"ns": bool(idx & 1), "decl": bool(idx & 2), "extras": bool(idx & 4), "desc": bool(idx & 8),
-            "fmt": (idx >> 4) & 1, "variant": (idx // 3) if variant is None else variant}
+            "fmt": (idx >> 4) & 1, "variant": (idx // 3) if variant is None else variant, "split": bool((idx // 5) % 3 == 1)}
 
 
 AA = "ACDEFGHIKLMNPQRSTVWY"
@@ -291,7 +297,9 @@ def rand_file(rng, prefix, names, fno, mark=False):
             spectra.append({"scan": int(rng.integers(1, 90000)), "charge": int(rng.integers(1, 7)),
                             "rt": int(rng.integers(0, 80000)) * 125, "mass": int(rng.integers(3200, 40000)) * 125,
                             "hits": [rand_hit(rng, prefix, names) for _ in range(nh)]})
-        runs.append({"stem": ["run", "/data/exp 1/run", "C:\\raw\\run"][int(rng.integers(0, 3))] + "%d_%d" % (fno, r),
+        # (dotted names: fraction numbers and dates are common in base names; the data-file name is the base name plus raw_data)
+        runs.append({"stem": ["run", "/data/exp 1/run", "C:\\raw\\run", "plasma.rep.", "/data/2021.03.04_run"][int(rng.integers(0, 5))] + "%d_%d" % (fno, r)
+                             + ["", ".1", ".2"][int(rng.integers(0, 3))],
                      "ext": ext, "full": bool(rng.random() < 0.4), "spectra": spectra})
     if mark:
         hits = [h for run in runs for sp in run["spectra"] for h in sp["hits"]]
